@@ -169,7 +169,7 @@ impl SubCheckT for Builder {
     const REPLAY_ATTEMPTS: u32 = 40;
     const RULE: &'static str = "BDD histories as in C01 with the unique table started at 1..24 slots in most cases; every result is keyed by its oracle truth table and must be pointer-equal (and builder.eq) to the first diagram of that function; every result of a logical op is walked for order/reducedness/high-edge shape; every reachable node is re-requested through get_or_insert at checkpoints and at the end and must come back at the same address. Non-trivial: the table grew at least once and nodes were re-requested after a growth";
     fn cases(tier: Tier) -> u32 {
-        tier.pick(3000, 120_000)
+        tier.pick(12_000, 200_000)
     }
     fn strategy(_tier: Tier) -> BoxedStrategy<Case> {
         (
@@ -377,7 +377,7 @@ impl SubCheckT for Table {
     const NAME: &'static str = "table";
     const RULE: &'static str = "the unique table (hook re-export) started at 1..32 slots and driven with get_or_insert_by_hash/get_by_hash over <=40 keys whose fixed hashes come from a tiny colliding set, against a map key->address: returned cell holds the key, same key => same address for ever, distinct keys => distinct addresses, num_nodes and iter agree with the model. Non-trivial: >=1 growth and >=1 re-insertion of a key first stored before a growth";
     fn cases(tier: Tier) -> u32 {
-        tier.pick(6000, 240_000)
+        tier.pick(30_000, 400_000)
     }
     fn strategy(_tier: Tier) -> BoxedStrategy<TableCase> {
         (
